@@ -65,7 +65,7 @@ prop("C05", "exploration", "spec-predicate monitor on real should_notify() calls
      "(c) add_notify_wait_pop runs against serve-on-notify / polling-with-suppression / late devices from the spin hook, where 'device idle and never notified' is decided on logical state.",
      "Only the direction the property states is asserted in event-idx mode (needed => notify); extra notifications are counted. 'Returns as soon as served' is restated as: no further spin-hook round after the device published the completion. Driver-level blocking helpers (blk/net/console/vsock/sound) are exercised in their own checks with the same spin monitor.",
      "a case is (i) one sweep instance = (queue size, batch b, event offset k, starting index) with real adds and a real check, keyed per pass by (N,b,k) [each pass = up to 65536 instances covering every index value]; "
-     "(ii) one qcore history with frequent should_notify/set_dev_notify checks; (iii) one blocking-helper co-simulation of 40 checked requests after 0..131072 warm-up requests under one policy. "
+     "(ii) one qcore history with frequent should_notify/set_dev_notify checks; (iii) one blocking-helper co-simulation of 40 checked requests after 0..131072 warm-up requests under one policy; (iv) one driver-level history of the C14/C15/C16/C17/C20 workloads (blk, console, net receive_wait, vsock wait_for_event, sound pcm_xfer and the request/response drivers) whose device personalities flag 'driver spins while the device is idle and was never notified', incl. devices that poll at first and switch to serve-on-notify mid-operation. "
      "Non-trivial: (i) the spec predicate says a notification is needed (observed.eventidx_needed), (ii) at least one real check happened, (iii) every request was served and checked. distinct = distinct pass keys + history hashes + blocking case keys.",
      [stage("checked")], [stage("checked", scale=4000), stage("release", scale=500), stage("miri", scale=1000, optional=True, timeout=7200)])
 
@@ -126,7 +126,7 @@ prop("C14", "exploration", "reference block device (sparse in-memory disk) parsi
      "a case is one VirtIOBlk instance (transport in {model, model-legacy, MMIO modern/legacy, SomeTransport(MMIO), PCI}; offered features: all 16 subsets of {RO, FLUSH, INDIRECT_DESC, EVENT_IDX} by case number plus random unsupported bits; capacity in {0,1,2048,2^32,2^32+5,2^64-1}; device notification policy serve-on-notify / polling+suppression / eager) driven through 300 (thorough 600) steps of "
      "read/write of 1..8 sectors at sectors incl. 0, 2^32, 2^63, flush, device_id, device statuses {OK, IOERR, UNSUPP, 3, 0xff}, non-blocking submissions (bursts up to queue-full), completions in random order with wrong-token probes, interrupt acknowledgement. "
      "Non-trivial iff at least 2 non-blocking requests were outstanding at once and at least one request completed with its data checked; distinct by hash of (configuration, operation list).",
-     [stage("checked", scale=8000)], [stage("checked", scale=12000), stage("asan", scale=1500, optional=True)])
+     [stage("checked", scale=8000)], [stage("checked", scale=12000), stage("asan", scale=1500, optional=True), stage("miri", optional=True, timeout=3600)])
 
 prop("C15", "exploration", "reference console device feeding a position-coded byte stream; every byte returned by the public API identifies its stream position",
      "The real VirtIOConsole runs against a reference console whose receive stream is a function of the byte position, so any byte the API returns is checked against exactly the position it must have (loss, duplication and reordering all show as a mismatch); "
@@ -134,7 +134,7 @@ prop("C15", "exploration", "reference console device feeding a position-coded by
      DRV_NOTE + " Liveness of polling recv() alone after a bulk read is not part of the (safety) statement.",
      "a case is one VirtIOConsole (transport model / model-no-unset / MMIO modern / MMIO legacy / PCI; INDIRECT_DESC x EVENT_IDX by case number; device policy serve-on-notify / polling / eager) driven through 600 (thorough 2000) API calls drawn from recv(peek), recv(pop), read (sizes 0,1,..600,4096,5000), fill_buf+consume, read_ready, ack_interrupt, send, send_bytes, embedded_io::Write, "
      "with device chunks of 1..4096 bytes delivered at API boundaries, inside wait loops (spin hook) and inside the driver's used-index loads (dma hook). Non-trivial iff at least one received byte was checked; distinct by hash of (configuration, operation list).",
-     [stage("checked", scale=8000)], [stage("checked", scale=17000), stage("asan", scale=1500, optional=True)])
+     [stage("checked", scale=8000)], [stage("checked", scale=17000), stage("asan", scale=1500, optional=True), stage("miri", optional=True, timeout=3600)])
 
 prop("C16", "exploration", "reference network device with uniquely numbered frames + receive-buffer ownership ledger (conservation check at every quiescent point)",
      "Both network drivers run against a reference NIC: every transmit chain is compared byte-wise with [zeroed header of the negotiated size][caller's frame] (raw transmit_begin: the caller's buffer verbatim); the device injects uniquely numbered frames of every length into posted buffers in arbitrary order and the driver's result is compared byte-wise; "
@@ -142,7 +142,7 @@ prop("C16", "exploration", "reference network device with uniquely numbered fram
      DRV_NOTE + " Buffer lengths respect the documented minimum (1526 bytes after rounding to whole words).",
      "a case is one driver instance (VirtIONet or VirtIONetRaw; QUEUE_SIZE in {2,4,16}; with/without VERSION_1 => 12/10-byte header; INDIRECT_DESC x EVENT_IDX; random unsupported offload bits offered; transport model / model-legacy / MMIO modern / MMIO legacy / PCI; buffer length 1528..65535) driven through 500 (thorough 2000) steps of "
      "frame injection bursts in arbitrary buffer order (frame length 0, 1, 1514, max, random), receive, recycle in arbitrary order, blocking send, raw receive_begin/poll/complete, receive_wait (device injects from the spin hook), raw transmit_begin/poll/complete. Non-trivial iff at least one received frame was compared; distinct by hash of (configuration, operation list).",
-     [stage("checked", scale=8000)], [stage("checked", scale=12000), stage("asan", scale=1000, optional=True)])
+     [stage("checked", scale=8000)], [stage("checked", scale=12000), stage("asan", scale=1000, optional=True), stage("miri", optional=True, timeout=3600)])
 
 prop("C17", "exploration", "reference vsock peer holding both credit windows and both byte streams in 64-bit arithmetic; every transmitted header decoded",
      "The real VsockConnectionManager/VirtIOSocket run against a reference peer: every packet on the transmit queue is decoded and checked (addressing, length, stream type, buf_alloc = configured capacity, fwd_cnt = bytes the application has read, advertised free space never above real free space); "
@@ -151,7 +151,7 @@ prop("C17", "exploration", "reference vsock peer holding both credit windows and
      DRV_NOTE + " The peer's window may shrink, but never below what is still in flight after its own consumption. Situations the property leaves open (data before the response, request on an existing connection) are not generated.",
      "a case is one connection manager (per-connection capacity in {1,2,7,16,100,512,1024,4096,65536}; RX buffer 128/512 bytes; INDIRECT_DESC x EVENT_IDX; transports model/MMIO/PCI; device policy on-notify/polling/eager) driven through 600 (thorough 3000) steps of connect, listen, peer requests, sends of 1..4096 bytes, peer data within the advertised credit, recv of 0..2*capacity+1 bytes, "
      "peer credit updates with partial consumption and changed windows, credit requests, shutdown/reset, packets for unknown connections and malformed packets; plus case 0 = 4.5 GiB transmit-counter wrap run and (thorough) case 1 = 4.5 GiB receive/forward-counter wrap run on 64 KiB receive buffers. Non-trivial iff at least one packet was polled or stream byte checked; distinct by hash of (configuration, operation list, case).",
-     [stage("checked", scale=8000)], [stage("checked", scale=12000), stage("release", scale=4000)])
+     [stage("checked", scale=8000)], [stage("checked", scale=12000), stage("release", scale=4000), stage("miri", optional=True, timeout=3600)])
 
 prop("C18", "exploration", "lock-step reference connection table + posted-receive-buffer count after every poll",
      "The same co-simulation with a state-focused workload: a reference table keyed by (peer cid, peer port, local port) predicts for every polled packet the event reported and the exact packets the driver must send (response on listening ports, reset and no event otherwise, nothing for unknown or foreign-cid tuples, credit update on credit request, reset when a shut-down connection is drained), "
@@ -159,7 +159,7 @@ prop("C18", "exploration", "lock-step reference connection table + posted-receiv
      DRV_NOTE + " Unspecified situations (request on an existing connection, reset with data buffered, data before the response) are not generated.",
      "a case is one connection manager with 4 peers x 4 local ports driven through 600 (thorough 3000) steps over all local operations (listen, unlisten, connect, send, recv, shutdown, force_close, update_credit) and all peer packet kinds incl. op 0, op > 7, control packets with data, truncated headers (used length < 44), length field > used length, wrong destination cid. "
      "Non-trivial iff at least one packet was polled; distinct by hash of (configuration, operation list, case).",
-     [stage("checked", scale=8000)], [stage("checked", scale=12000), stage("asan", scale=1000, optional=True)])
+     [stage("checked", scale=8000)], [stage("checked", scale=12000), stage("asan", scale=1000, optional=True), stage("miri", optional=True, timeout=3600)])
 
 prop("C19", "exploration", "reference device completing posted buffers in arbitrary order with uniquely numbered events; completion-order FIFO compared with deliveries; posted-buffer census after every poll",
      "OwningQueue is exercised directly for SIZE in {1,2,8,32} x BUFFER_SIZE in {8,64,512}, and through VirtIOInput::pop_pending_event and VirtIOSound::latest_notification on model/MMIO/PCI transports (the socket receive queue is audited in C18): the reference device fills any posted buffer with a uniquely numbered event of any length 0..=BUFFER_SIZE, "
@@ -177,7 +177,7 @@ prop("C20", "exploration", "five reference devices decoding every request chain 
      "a case is one driver instance of one of the five devices (transport model / model-no-unset / MMIO modern / MMIO legacy / PCI; INDIRECT_DESC x EVENT_IDX; device notification policy) driven through 40..60 operations with random parameters: entropy lengths 1..64 KiB with short deliveries; all three clock messages x statuses {0,1,2,3,4,5,6,0xff} x clock types/smearing/flags; "
      "9P requests with size field ==/!= used length and invalid buffer sizes; GPU resolution/framebuffer setup/change_resolution/flush/cursor setup+move with 1-in-8 unexpected responses, plus EDID cases of 400 random/structured 1024-byte blobs with size fields {0,127,128,129,256,1024,2^32-1}; sound set_params (valid/invalid), stream commands, jack remap, capability getters, blocking pcm_xfer of 1..40 periods (+ partial tail) and non-blocking batches. "
      "Non-trivial iff at least one request/response pair was checked; distinct by hash of (device, configuration, operation list, case).",
-     [stage("checked", scale=8000)], [stage("checked", scale=22000), stage("asan", scale=2000, optional=True)])
+     [stage("checked", scale=8000)], [stage("checked", scale=22000), stage("asan", scale=2000, optional=True), stage("miri", optional=True, timeout=3600)])
 
 prop("C08", "exploration", "ordered transport-event log (model transport calls / decoded register writes of the real MMIO and PCI transports) checked by a handshake automaton; device-side feature gates",
      "Each of the eleven drivers is constructed on eight transport variants for every subset of its relevant feature bits; the ordered log of transport events must be reset -> ACKNOWLEDGE|DRIVER -> features read -> features written (subset of the offer, VERSION_1 accepted when offered, nothing outside the driver's implemented set) -> FEATURES_OK -> queue set-up -> DRIVER_OK with no notification before DRIVER_OK; "
@@ -185,7 +185,7 @@ prop("C08", "exploration", "ordered transport-event log (model transport calls /
      "The table of implemented and feature-gated bits (DESIGN Appendix B) is pinned to this commit (trusted base; a legitimate upstream feature addition needs a one-line table update). The 9P driver documents that it refuses devices without MOUNT_TAG; that refusal (before any configuration read or DRIVER_OK) is accepted.",
      "a case is (driver, transport, offered feature set): all 2^k subsets of the driver-relevant bits (ring bits 28,29,32,33 + implemented + unimplemented device-specific bits, k <= 9) on the three model transports (plain / no-op queue_unset / legacy layout) with 4 fillings of the irrelevant bits on the plain model, and every 5th subset (thorough: every subset) on MMIO modern, MMIO legacy, SomeTransport(MMIO), PCI, SomeTransport(PCI). "
      "Non-trivial iff construction reached DRIVER_OK (or the documented refusal); distinct by (driver, transport, offered set).",
-     [stage("checked"), stage("release", scale=1000)], [stage("checked"), stage("release")])
+     [stage("checked"), stage("release", scale=1000)], [stage("checked"), stage("release"), stage("miri", optional=True, timeout=3600)])
 
 prop("C09", "fault_enumeration", "instrumented Hal with allocation-failure injection (every k) + merged ordered event log (transport events, ledger events, #[global_allocator] spy hits) checked by a liveness rule",
      "For every driver x transport variant x ring-feature variant the fault-free run is recorded and then re-run with the k-th dma_alloc failing for every k = 1..=A+1 (construction and the allocation-bearing part of the usage script); each run must end in Err(DmaError) rather than a panic, every region handed out must come back exactly once with identical address, pointer and page count (ledger), and nothing may stay allocated. "
@@ -193,7 +193,7 @@ prop("C09", "fault_enumeration", "instrumented Hal with allocation-failure injec
      "queue_unset is a no-op on PCI-like transports (one model variant + the real PCI transport), so only reset/transport drop quiesces there. Heap (non-DMA) leaks of indirect tables when a queue is dropped with chains outstanding are outside the statement. The allocator spy tracks at most 512 concurrently shared ranges.",
      "a case is (driver in 11, transport in {model, model with no-op queue_unset, model legacy layout, MMIO modern, MMIO legacy, PCI}, ring-feature variant, scenario in {construct + use + drop, construct + leave requests/buffers outstanding + drop}, k) with k ranging over 'no fault' and every allocation index 1..=A+1; plus 9P bad-tag (empty / invalid UTF-8 / longer than the window) and net undersized-buffer construction errors. "
      "Non-trivial iff the k-th allocation was actually reached (or no fault was planned); distinct by the tuple. Enumeration over k is exhaustive for each configuration (coverage.exhaustive refers to k only).",
-     [stage("checked")], [stage("checked"), stage("release"), stage("asan", optional=True)])
+     [stage("checked")], [stage("checked"), stage("release"), stage("asan", optional=True), stage("miri", optional=True, timeout=3600)])
 
 prop("C07", "fault_enumeration", "hostile reference device (fault catalogue x target matrix) under AddressSanitizer / Miri / valgrind, with ledger (double release) and differential (scribbling) oracles",
      "Every fault of the catalogue (used-ring ids out of range / free / other outstanding / duplicated / with high bits set, lengths 0 / +1 / 2^31 / 2^32-1, index jumps 2 / N / 32768 / 65535, element rewritten between the driver's two loads via the load hook) is applied at several positions of a well-formed prefix to the raw VirtQueue (direct, indirect) and to OwningQueue; "
